@@ -94,6 +94,45 @@ func modePipe(n int, long bool) {
 	}
 }
 
+// C06: one-at-a-time connections; callers cancel around the reply time; idle timers race
+func modeReuse(n int) {
+	sc := func(ex int, proto string) behaviour {
+		h := h32(ex, int(seed), 6)
+		b := behaviour{delay: time.Duration(h%20) * time.Millisecond}
+		switch (h >> 8) % 14 {
+		case 0:
+			b.drop = true
+		case 1:
+			b.abort = true
+		case 2:
+			b.split = true
+		case 3:
+			b.delay = time.Duration(100+(h>>16)%120) * time.Millisecond // around / after the response timeout
+		case 4:
+			b.partial = true
+		case 5, 6:
+			b.closeAfter = true
+		case 7:
+			b.split = true
+			b.delay = time.Duration(30+(h>>16)%40) * time.Millisecond
+		}
+		return b
+	}
+	srv := newServer("r", sc, false, true)
+	defer srv.close()
+	tr.Emit("seg", "name", "reuse")
+	t := transport.NewReuseConnTransport(transport.ReuseConnOpts{
+		DialContext: dialer("tcp", srv.addr), IdleTimeout: 25 * time.Millisecond, DialTimeout: time.Second,
+	})
+	transport.VerifSetRespTimeout(t, 150*time.Millisecond)
+	workerPause = 60 * time.Millisecond // lets idle timers (25 ms) fire between uses
+	runWorkers(t, 12, n/12+1, 15*time.Millisecond, 220*time.Millisecond, false)
+	workerPause = 0
+	time.Sleep(250 * time.Millisecond) // let the workers that outlived their callers finish
+	t.Close()
+	time.Sleep(50 * time.Millisecond)
+}
+
 func main() {
 	out := flag.String("out", "trace.ndjson", "")
 	mode := flag.String("mode", "pipe", "")
@@ -106,6 +145,8 @@ func main() {
 	switch *mode {
 	case "pipe":
 		modePipe(*n, *long)
+	case "reuse":
+		modeReuse(*n)
 	default:
 		panic("unknown mode " + *mode)
 	}
